@@ -345,6 +345,16 @@ def step (st : State) (toks : List String) : State × String :=
     match C11.step x .treeResp with
     | some x1 => let x2 := relook x1; ({ st with s := x2 }, "accepted " ++ obs x2)
     | none => (st, "refused " ++ obs x)
+  -- `readtree <tok>`: the protocol of a built instance — listed, or finished already — reads its tree
+  -- (`TreeNodeInstance.Tree()` = `treeStorage.Get`: a read, it does not touch a scheduled removal; without the tree it
+  -- panics). Typical source: `p.Done(); report(len(p.Roster().List))`
+  | ["readtree", tok] =>
+    match tok.toNat? with
+    | some tok =>
+      let built := !failTok tok && !badTok tok && tok < 2000 &&
+        ((x.settled.contains tok && x.thr.countP (regTok tok) == 0) || (x.doneToks.contains tok && x.constructed.contains tok))
+      if built then (st, (if x.present then "tree " else "panic ") ++ obs x) else (st, "disabled")
+    | none => (st, "bad-op")
   | ["peerreq"] =>
     match C11.step x .peerReq with
     | some x1 => ({ st with s := x1 }, (if x1.peerAnswered > x.peerAnswered then "answered " else "ignored ") ++ obs x1)
